@@ -148,6 +148,8 @@ PROFILES = {
                     njobs=[2, 3, 4, 5, 6]),
     'shutdown': dict(sdurs=[0, 1, 3, 0.5, 2], p_sd_never=0.15, sdts=[0, 1, 2, None, 0.5],
                      p_timeout=0.4, p_raise=0.3, p_critical=0.5, p_nest=0.35),
+    'vwin': dict(p_verbose=1.0, p_window=0.9, windows=[1, 1, 2, 2, 3], durs=[1, 1, 2, 2], pres=[0, 0, 1, 2], posts=[0, 1, 2, 3],
+                 dens=[0.3, 0.5, 0.8], njobs=[4, 5, 6, 7, 8], p_raise=0.3, p_critical=0.2, p_timeout=0.1, p_nest=0.15),
     'big': dict(njobs=[7, 8, 9, 10, 12], njobs_nested=[3, 4, 5, 6, 7], dens=[0.1, 0.2, 0.3], p_nest=0.2,
                 p_window=0.4, windows=[1, 2, 3, 4, 5], p_timeout=0.15, durs=[0, 0.5, 1, 1, 2, 2, 3], p_raise=0.2),
     'nesting': dict(maxdepth=3, p_nest=0.45, njobs_nested=[0, 1, 2, 2, 3], njobs=[2, 3, 4],
@@ -208,7 +210,7 @@ def gen_tree(rng, prof=None, depth=0, idgen=None, top=True, maxdepth=None):
             if job['outcome'] == 'raise' and rng.random() < 0.4:
                 job['exc'] = rng.choice(['timeout', 'key', 'custom', 'base', 'empty', 'multiline'])
             if job['outcome'] == 'return' and rng.random() < 0.2:
-                job['retval'] = rng.choice(['none', 'false', 'zero', 'empty'])
+                job['retval'] = rng.choice(['none', 'false', 'zero', 'empty', 'future'])
             job['cdur'] = rng.choice(p.get('cdurs', [0, 0, 0, 1, 2]))
             job['cyields'] = rng.choice([0, 0, 1])
             job['sdur'] = rng.choice(p.get('sdurs', [0, 0, 0, 1, 3]))
